@@ -21,6 +21,9 @@ that code:
  R4  caller / callee agreement down the call tree: the value handed to a callee is
      recorded under the *callee's* dummy name (inverse of ``call.arg_iter()``)
      and is the caller's value of the variable that was passed.
+ R5  every occurrence counts: the occurrences of parametrised variables that are
+     recorded for the callee are the ones removed from the call -- no first-match
+     look-up (``arguments.index(v)``) next to a filter that removes all of them.
 Not decided: equivalence of the parametrised code for matching inputs (value
 level), the replace-by-value inlining.
 """
@@ -224,17 +227,32 @@ def run(ctx):
     inv_ok = [n for n in inv if any(isinstance(a, ast.Assign) and any(isinstance(t, ast.Name) and t.id == n for t in a.targets)
                                     and ('.arg_iter()' in ast.unparse(a.value) or any(am in ast.unparse(a.value) for am in amap))
                                     for a in ast.walk(fn))]
+    # the store `D[<callee dummy>] = <value>`: the dummy is obtained either through the inverse of call.arg_iter() or
+    # positionally, as loop target of zip(<call>.routine.arguments, <call>.arguments)
     stores = []
+    positional = {}
+    for l in ast.walk(fn):
+        if isinstance(l, ast.For) and isinstance(l.iter, ast.Call) and X.call_name_of(l.iter) == 'zip' and len(l.iter.args) == 2 \
+                and isinstance(l.target, ast.Tuple) and len(l.target.elts) == 2 and ast.unparse(l.iter.args[0]).endswith('.routine.arguments') \
+                and ast.unparse(l.iter.args[1]).endswith('.arguments') and not ast.unparse(l.iter.args[1]).endswith('.routine.arguments'):
+            positional[l.target.elts[0].id] = (l.target.elts[1].id, l)
     for a in ast.walk(fn):
         if isinstance(a, ast.Assign) and isinstance(a.targets[0], ast.Subscript):
             key_e = a.targets[0].slice
             p_ = [n.slice for n in ast.walk(key_e) if isinstance(n, ast.Subscript) and isinstance(n.value, ast.Name) and n.value.id in inv]
             if p_:
                 stores.append((a, p_[0]))
+                continue
+            dn = [n.id for n in ast.walk(key_e) if isinstance(n, ast.Name) and n.id in positional]
+            if dn and any(a in list(ast.walk(positional[dn[0]][1])) for _ in (0,)):
+                stores.append((a, ast.Name(id=positional[dn[0]][0], ctx=ast.Load())))
+                inv_positional = True
     if len(stores) != 1:
-        raise AnalysisError(f'expected one store keyed by the callee dummy (inverse of call.arg_iter()), found {len(stores)}')
+        raise AnalysisError(f'expected one store keyed by the callee dummy (inverse of call.arg_iter(), or zip of dummies and actuals), found {len(stores)}')
     st, passed_e = stores[0]
     passed = ast.unparse(passed_e)
+    if any(isinstance(n, ast.Name) and n.id in positional for n in ast.walk(st.targets[0].slice)):
+        inv_ok = ['positional']
     cont = st.targets[0].value
     to_succ = 'trafo_data' in ast.unparse(cont) or (isinstance(cont, ast.Name) and any(
         isinstance(a, ast.Assign) and isinstance(a.value, ast.Name) and a.value.id == cont.id and 'trafo_data' in ast.unparse(a.targets[0])
@@ -270,6 +288,7 @@ def run(ctx):
             if len(defs) == 1:
                 return value_ok(defs[0], p)
         return False, f'the value `{txt}` is not `{dname}[{p}.name]`'
+    run_r5(ctx, fn, ts, dname)
     okv, why = value_ok(st.value, passed)
     if inv_ok and okv:
         ctx.judge('R4', 'callee data: key = callee dummy, value = caller value of the passed variable',
@@ -278,6 +297,26 @@ def run(ctx):
         what = why if inv_ok else 'the key is not the callee dummy obtained from the inverse of call.arg_iter()'
         ctx.violation('R4', 'transform_subroutine:callee-data', f'{ts.module.relpath}:{st.lineno}',
                       f'`{ast.unparse(st)[:140]}`: {what}: the callee fixes a different dummy, or a different value, than the caller passed')
+
+
+def run_r5(ctx, fn, ts, dname):
+    """recorded occurrences == removed occurrences of parametrised variables in a call"""
+    ctx.rule('R5', 'the occurrences of parametrised variables recorded for the callee are the occurrences removed from the call: no first-match '
+                   'look-up (`.index(`) on the argument list')
+    keyset = set(X.names_assigned_from(fn, f'list({dname})')) | {dname}
+    removal = [c for c in ast.walk(fn) if isinstance(c, (ast.GeneratorExp, ast.ListComp)) and len(c.generators) == 1
+               and ast.unparse(c.generators[0].iter).endswith('.arguments') and not ast.unparse(c.generators[0].iter).endswith('routine.arguments')
+               and any(isinstance(i_, ast.Compare) and isinstance(i_.ops[0], ast.NotIn) for i_ in c.generators[0].ifs)]
+    if not removal:
+        raise AnalysisError('transform_subroutine: removal of parametrised variables from the call arguments not found')
+    firsts = [c for c in ast.walk(fn) if isinstance(c, ast.Call) and isinstance(c.func, ast.Attribute) and c.func.attr == 'index'
+              and ast.unparse(c.func.value).endswith('.arguments')]
+    if firsts:
+        ctx.violation('R5', 'transform_subroutine:first-occurrence-only', f'{ts.module.relpath}:{firsts[0].lineno}',
+                      f'`{ast.unparse(firsts[0])}` locates only the first occurrence of a parametrised variable among the call arguments while '
+                      f'`{ast.unparse(removal[0])[:70]}` removes every occurrence: call kernel(n, n, x) loses two arguments, the callee one dummy')
+    else:
+        ctx.judge('R5', 'no first-match look-up of parametrised arguments', facts={'removal': ast.unparse(removal[0])[:80]})
 
 
 def _comp_of(fn, e):
@@ -305,9 +344,13 @@ MUTANTS = [
            "                                     ir.Comment(text=\"! STOP 1\"))", expect=('R2', 'default-abort')),
     Mutant('rename-pattern-differs', FILE, "arguments.append(arg.clone(name=f'parametrised_{arg.name}'))",
            "arguments.append(arg.clone(name=f'parametrized_{arg.name}'))", expect=('R3', 'rename-lookup-mismatch')),
-    Mutant('callee-value-by-callee-name', FILE,
-           "                            dic2p[call.arguments[index].name]",
-           "                            dic2p[str(arg_map_reversed[call.arguments[index]])]", expect=('R4', 'callee-data')),
+    Mutant('callee-value-by-callee-name', FILE, "                            successor_dic2p[str(dummy)] = dic2p[arg.name]",
+           "                            successor_dic2p[str(dummy)] = dic2p[dummy.name]", expect=('R4', 'callee-data')),
+    Mutant('first-occurrence-only', FILE,
+           "                    for dummy, arg in zip(call.routine.arguments, call.arguments):\n                        if arg in vars2p:\n                            successor_dic2p[str(dummy)] = dic2p[arg.name]\n",
+           "                    arg_map_reversed = {v: k for k, v in call.arg_iter()}\n                    for index in [call.arguments.index(v) for v in vars2p if v in call.arguments]:\n"
+           "                        successor_dic2p[str(arg_map_reversed[call.arguments[index]])] = dic2p[call.arguments[index].name]\n",
+           expect=('R5', 'first-occurrence-only')),
     Mutant('guard-loop-break', FILE, "                    if f'parametrised_{key}' in routine.variable_map:\n",
            "                    if f'parametrised_{key}' not in routine.variable_map:\n                        break\n                    if True:\n",
            expect=('R2', 'loop-exit')),
